@@ -100,7 +100,10 @@ def content (st : MState) (k : Key) : List Line :=
 def memAll (st : MState) (k : Key) : List Line :=
   st.consumed k ++ (((st.slots k).bind (·.mem)).getD [])
 
-/-- `_writeTrace`: append the buffer to the file, empty the buffer -/
+/-- `_writeTrace`: append the buffer to the file, empty the buffer.  (Since the C15 repair the code opens the
+    file of a trace that was never started with mode "w" instead of "a"; inside one session that begins with no
+    file of that name — the only situation this machine describes — an unstarted trace has an empty file, so the
+    two modes coincide.  The cross-session effect is modelled in FtModel/Metrics.lean, `fileBase`.) -/
 def writeTrace (st : MState) (k : Key) : MState :=
   match st.slots k with
   | some s =>
